@@ -744,7 +744,26 @@ static inline void gm_exec(const GLine *L, const char *s, int n) {
   }
   if (MN("fstp")) { if (m.x87 <= 0) { m.bad = 1; return; } m.x87--; return; }
   if (MN("faddp") || MN("fsubrp") || MN("fmulp") || MN("fdivrp") || MN("fsubp") || MN("fdivp")) {
-    if (m.x87 < 2) { m.bad = 1; return; } m.x87--; m.st_int[m.x87 - 1] = 0; return;
+    // no-operand AT&T forms as GNU as assembles them (the r-forms are swapped relative to the SDM names):
+    //   faddp: st1 = st1 + st0   fmulp: st1 = st1 * st0   fsubrp: st1 = st1 - st0   fsubp: st1 = st0 - st1
+    //   fdivrp: st1 = st1 / st0  fdivp: st1 = st0 / st1    then pop.
+    // Integer-valued operands stay in the model when the exact result is an integer below 2^62 in magnitude
+    // (exactly representable in the 64-bit mantissa); everything else leaves the model (tag 0).
+    if (m.x87 < 2) { m.bad = 1; return; }
+    int64_t a = m.st[m.x87 - 2], b = m.st[m.x87 - 1]; _Bool both = m.st_int[m.x87 - 2] == 1 && m.st_int[m.x87 - 1] == 1;
+    _Bool small = a > -(1L << 31) && a < (1L << 31) && b > -(1L << 31) && b < (1L << 31);
+    _Bool mid = a > -(1L << 61) && a < (1L << 61) && b > -(1L << 61) && b < (1L << 61);
+    m.x87--;
+    m.st_int[m.x87 - 1] = 0;
+    if (both) {
+      if (MN("faddp") && mid) { m.st[m.x87 - 1] = a + b; m.st_int[m.x87 - 1] = 1; }
+      else if (MN("fsubrp") && mid) { m.st[m.x87 - 1] = a - b; m.st_int[m.x87 - 1] = 1; }
+      else if (MN("fsubp") && mid) { m.st[m.x87 - 1] = b - a; m.st_int[m.x87 - 1] = 1; }
+      else if (MN("fmulp") && small) { m.st[m.x87 - 1] = a * b; m.st_int[m.x87 - 1] = 1; }
+      else if (MN("fdivrp") && small && b != 0 && a % b == 0) { m.st[m.x87 - 1] = a / b; m.st_int[m.x87 - 1] = 1; }
+      else if (MN("fdivp") && small && a != 0 && b % a == 0) { m.st[m.x87 - 1] = b / a; m.st_int[m.x87 - 1] = 1; }
+    }
+    return;
   }
   if (MN("fadds")) { if (m.x87 < 1 || o1.kind != O_MEM) { m.bad = 1; return; }
     // used only by u64->f80: adds the float constant 2^64 (0x5f800000) to fix up a negative fild
